@@ -175,6 +175,39 @@ def programs(ctx):
             exp += exp1(v)
         src = '\n'.join(decls) + '\nempty @is_you() {\n  ' + '\n  '.join(body) + '\n}\n'
         progs.append(('several %s constants in one program' % kind, src, exp, [kind, k]))
+    # 6. stack-allocated literals full of zero / false values, built over stack bytes a previous call left dirty
+    for n in range(40 if ctx.tier == 'quick' else 300):
+        el = rng.choice(['bool', 'bool', 'byte', 'int'])
+        ln = rng.choice([8, 9, 10, 16, 17, 3, 12])
+        vals = [0] * ln
+        for _ in range(rng.randrange(0, 3)):
+            vals[rng.randrange(ln)] = 1
+        if el == 'bool':
+            lit = '[' + ', '.join('true' if v else 'false' for v in vals) + ']'
+            pr = 'if (seen[i]) { write(\'1\'); } else { write(\'0\'); }'
+        else:
+            lit = '[' + ', '.join(str(v) for v in vals) + ']'
+            pr = 'write(seen[i] is int);' if el == 'byte' else 'write(seen[i]);'
+        one = ''.join(str(v) for v in vals).encode() + b'\n'
+        src = ('empty scribble() { byte[] junk = [0xFF, 0xFF, 0xFF, 0xFF, 0xFF, 0xFF, 0xFF, 0xFF, 0xFF, 0xFF, 0xFF, 0xFF, 0xFF, 0xFF, 0xFF, 0xFF, 0xFF, 0xFF, 0xFF, 0xFF]; junk[0] = junk[1]; }\n'
+               'empty show() { %s[] seen = %s; for (int i = 0; i < seen.length; i += 1) { %s } writeln(); }\n'
+               'empty @is_you() { show(); scribble(); show(); scribble(); show(); }\n') % (el, lit, pr)
+        progs.append(('stack %s literal of zeros over dirty stack' % el, src, one * 3, [el, ln]))
+    # 5. constants of DIFFERENT element types whose literal values coincide (tables must not be shared across types)
+    for n in range(40 if ctx.tier == 'quick' else 300):
+        ln = rng.randrange(1, 10)
+        bits = [rng.random() < 0.5 for _ in range(ln)]
+        decls = ['const bool[] cb = [%s];' % ', '.join('true' if x else 'false' for x in bits),
+                 'const byte[] cy = [%s];' % ', '.join('1' if x else '0' for x in bits),
+                 'const int[] ci = [%s];' % ', '.join('1' if x else '0' for x in bits)]
+        rng.shuffle(decls)
+        glob = [d for d in decls if rng.random() < 0.5]
+        loc = [d for d in decls if d not in glob]
+        body = ['for (int i = 0; i < cb.length; i += 1) { if (cb[i]) { write(\'T\'); } else { write(\'F\'); } }', 'write(\';\');',
+                'for (int i = 0; i < cy.length; i += 1) { write(cy[i] is int); }', 'write(\';\');', 'for (int i = 0; i < ci.length; i += 1) { write(ci[i]); }']
+        exp = b''.join(b'T' if x else b'F' for x in bits) + b';' + b''.join(b'1' if x else b'0' for x in bits) + b';' + b''.join(b'1' if x else b'0' for x in bits)
+        src = '\n'.join(glob) + '\nempty @is_you() {\n  ' + '\n  '.join(loc + body) + '\n}\n'
+        progs.append(('constants of different element types with equal values', src, exp, ['mixed', ln]))
     return progs
 
 
